@@ -315,6 +315,7 @@ def run_bandit(case, driver):
     if case.get("shared_list"):
         tags.append("actions:same-list-object-refilled")
     since_learn = 0
+    taught = []           # the rewards the wrapped learner was taught (after the Misguided wrappers)
     mirror = UcbMirror() if lt == "ucb" else None
     mhist = []            # the history as the model sees it
     cmp = []              # (index into model outs, kind, impl value, description)
@@ -496,6 +497,8 @@ def run_bandit(case, driver):
                 B("%s.learn(%r, %r, %r, .) raised %r at call #%d" % (learner_src(spec), ctx, aval, r, e, k), "learn-raises-" + type(e).__name__)
                 kind, val = "err", type(e).__name__
                 stop = True
+            if kind == "learned":
+                taught.append(misguide_float(mis, r))
             if mirror is not None and kind == "learned":
                 mirror.learn(aid, misguide_float(mis, r))
             mhist.append({"op": "learn", "a": aid, "r": q(r)})
@@ -538,6 +541,18 @@ def run_bandit(case, driver):
             if d:
                 fails.append(F("A", "%s %s: %s" % (learner_src(spec), desc, d), "A:%s-%s" % (lt, kind)))
                 break
+    if driver is not None and taught and all(math.isfinite(x) for x in taught):
+        # coba.statistics.OnlineVariance on the taught rewards = the model's Welford recurrence through flDouble (compared at 1e-12)
+        from coba.statistics import OnlineVariance
+        ov = OnlineVariance()
+        for x in taught:
+            ov.update(x)
+        mv = driver.ask({"kind": "welford", "xs": [q(float(x)) for x in taught]})["var"]
+        got = ov.variance
+        if any(abs(x) >= 1e6 for x in taught):
+            tags.append("reward:large-offset")
+        if (mv is None) != (isinstance(got, float) and math.isnan(got)) or (mv is not None and not close(float(unq(mv)), got, 1e-12, 0)):
+            fails.append(F("A", "OnlineVariance over %s: implementation %r, model %s" % (taught[:8], got, None if mv is None else float(unq(mv))), "A:online-variance"))
     nontrivial = n_pred >= 1 and n_learn >= 1 and maxn >= 2 and len(case["hist"]) >= 3
     return {"fails": fails, "nontrivial": nontrivial, "tags": sorted(set(tags)), "impl": impl, "model": model}
 
@@ -1183,7 +1198,10 @@ class C16(Property):
         "round-to-nearest-even binary64 implemented in Lean and checked against CPython on 3000 values), so ties are the implementation's ties; the final "
         "pmf arithmetic is exact in the model and compared at 1e-9 with the implementation's doubles",
         "BanditUCB's index m+sqrt(ln t/s*min(1/4,V)) (libm log/sqrt) is an arbitrary function in the model; for the correspondence its values are recomputed "
-        "in the harness with the same float formulas",
+        "in the harness with the same float formulas. What the REAL code needs for the index to be defined is t>=1, s>=1 (proved: Ucb.Inv) and a NON-NEGATIVE "
+        "variance under the sqrt: proved for Welford's recurrence over exact arithmetic (welford_var_nonneg, ucb_index_args_nonneg); that the float recurrence "
+        "keeps M2 >= 0 (delta and delta2 have the same sign under monotone rounding) is trusted and exercised: OnlineVariance is compared with the model's "
+        "Welford through flDouble on every history, incl. rewards with offsets up to 1e12 (Misguided wrappers)",
         "actions are identified by their ==-class after make_hashable; the harness assigns the classes (pairwise-unequal catalog with aliases)",
         "Corral, float-faithful part: `omdF` mirrors _log_barrier_omd operation by operation through `fl` (incl. CPython 3.12's Neumaier `sum`, the rounded "
         "midpoint, the same `bisect` loop); with flDouble its output is compared with the real function's at 1e-12 on the outer and every nested Corral "
